@@ -13,7 +13,7 @@
 #[verifier::external_body] pub struct Color { _o: u8 }
 #[verifier::external_body] pub struct WorksheetRest { _o: u8 }
 // the worksheet fields the user-model operations read directly (D5)
-pub struct Worksheet { pub name: String, pub color: Color, pub show_grid_lines: bool, pub state: SheetState, pub views: HashMap<u32, WorksheetView>, pub rest: WorksheetRest }
+pub struct Worksheet { pub sheet_id: u32, pub name: String, pub color: Color, pub show_grid_lines: bool, pub state: SheetState, pub views: HashMap<u32, WorksheetView>, pub rest: WorksheetRest }
 #[verifier::external_body] pub struct ModelRest<'a> { _p: core::marker::PhantomData<&'a u8> }
 #[verifier::external_body] pub struct WorkbookRest { _o: u8 }
 impl Clone for Color { #[verifier::external_body] fn clone(&self) -> (r: Self) ensures r == *self { unimplemented!() } }
